@@ -31,6 +31,10 @@ def check(run, prog, tier):
     run.trusted_base = ["numpy.fft.hfft(x, n) returns n real points; without n it returns 2*(len(x)-1)",
                         "for an fftshift-ordered array of even length M, flipud maps frequency index k to "
                         "-k-1; roll by one restores -k (zero frequency fixed)"]
+    run.rule("C11-H", "the dipole operator and the calculator compute line strengths from the current representation of the dipoles (no strengths kept across a transformation)", minimum=2)
+    from . import memorule
+    memorule.check(run, prog, "C11-H", ['quantarhei.qm.hilbertspace.dmoment.TransitionDipoleMoment', 'quantarhei.spectroscopy.abscalculator.AbsSpectrumCalculator'],
+                   "the exciton lines then carry |d|^2 of another representation")
     run.rule("C11-A", "eigenbasis transformations in the aggregate calculation are undone", minimum=4)
     run.rule("C11-B", "half-sided transform is laid on the returned grid", minimum=10)
     run.rule("C11-C", "dipoles enter through scalar products only", minimum=3)
